@@ -1,4 +1,4 @@
 From Coq Require Import Extraction ExtrOcamlBasic.
-From CV Require Import Base.Num C18.ValueModel C06.RestraintModel C01.ForceModel.
+From CV Require Import Base.Num C18.ValueModel C06.RestraintModel C01.ForceModel C01.SuperposModel.
 Extraction Language OCaml.
-Extraction "model.ml" mkNumOps energy forces var_values var_force cvc_value cvc_total_grad all_contribs.
+Extraction "model.ml" mkNumOps energy forces var_values var_force cvc_value cvc_total_grad all_contribs init_var state_after effective h_energy h_forces h_values.
